@@ -165,7 +165,7 @@ theorem acceptsPW_sound (pre : Bytes) (fuel : Nat) (w : PW) (prods : List (List 
       simp only [beq_iff_eq] at h
       rw [← h]; rfl
     · simp only [List.any_eq_true, Bool.and_eq_true] at h
-      obtain ⟨⟨x, r⟩, hp, hpre, hr⟩ := h
+      obtain ⟨⟨x, r⟩, hp, ⟨hpre, _⟩, hr⟩ := h
       simp only at hpre hr
       obtain ⟨s, hs, hd⟩ := ih _ _ _ hr
       obtain ⟨pr, t, post, rfl, rfl⟩ := picks_spec prods x r hp
